@@ -221,11 +221,11 @@ def poll_leaf(ip, loc, leaf):
         from models_sync import HttpResponseM
         # the endpoint's behaviour is arbitrary: any status code, or a transport error
         if p.choose(2, 'http outcome') == 1:
-            p.effect('http.error')
+            p.effect('http.error', leaf.data)
             return ready(err(Opaque('reqwest::Error')))
         st = p.fresh('http_status')
         p.assume(z3.And(st >= 100, st <= 999))       # http::StatusCode invariant
-        p.effect('http.response', st)
+        p.effect('http.response', st, leaf.data)
         return ready(ok(HttpResponseM(st)))
     if k == 'join_next':
         set_loc = leaf.data
